@@ -413,6 +413,7 @@ class Engine:
         tag = f"inv[{ordn}]"
         coll = self.ev(s.iter, st)
         itr = self.make_iter(coll, st, s)
+        st.ghost[f"entry{ordn}"] = {k: v.clone() for k, v in st.heap.items()}     # heap when the loop is entered
         g0 = itr.start()
         cterm = getattr(getattr(itr, "coll", None), "t", None)
         g0["coll"] = cterm
@@ -555,6 +556,9 @@ class Engine:
                 return TSpace.empty()
             if isinstance(ty, (TList, TSet, TDict)):
                 return ty.empty()
+        r = self.reg._hook("coerce", self, st, v, ty)
+        if r is not None:
+            return r
         if isinstance(v, _StrLit) and ty == TInt:
             from . import theory as _T
             if v.s in _T.PROBLEM:
